@@ -285,6 +285,7 @@ const preludeCore = `
 (declare-fun str_concat (Str Str) Str)
 (declare-fun str_lt (Str Str) Bool)
 (declare-fun str_runes (Str) Int)
+(declare-fun str_sub (Str Int Int) Str)
 (declare-fun sl_ielem ((Array Int Int) Int Int) Int)
 (assert (forall ((a (Array Int Int)) (o Int) (j Int)) (! (= (sl_ielem a o j) (select a (+ o j))) :pattern ((sl_ielem a o j)))))
 (declare-fun implements (Int Int) Bool)
